@@ -1,6 +1,7 @@
 from __future__ import division, print_function
 import numpy as np
 from bct.utils import BCTParamError, normalize, get_rng
+from bct.utils import _verif
 from ..due import BibTeX, due
 from ..citations import (
     LEICHT2008, REICHARDT2006, GOOD2010, SUN2008, RUBINOV2011,
@@ -208,6 +209,7 @@ def community_louvain(W, gamma=1, ci=None, B='modularity', seed=None):
                     Hm[ma] -= H[u]  # change module strengths
 
                     Mb[u] = mb + 1
+                    if _verif.ON: _verif.emit('move', fn='community_louvain', u=u, ma=ma, mb=mb, gain=max_dq, labels=Mb, knm=Hnm, km=Hm, B=B)
 
         _, Mb = np.unique(Mb, return_inverse=True)
         Mb += 1
@@ -238,6 +240,7 @@ def community_louvain(W, gamma=1, ci=None, B='modularity', seed=None):
         q0 = q
 
         q = np.trace(B)  # compute modularity
+        if _verif.ON: _verif.emit('level', fn='community_louvain', labels=ci, q=q, q0=q0)
     
     # Workaround to normalize
     if not renormalize:
@@ -676,6 +679,7 @@ def modularity_finetune_dir(W, ci=None, gamma=1, seed=None):
 
                 ci[u] = mb + 1  # reassign module
                 flag = True
+                if _verif.ON: _verif.emit('move', fn='modularity_finetune_dir', u=u, ma=ma, mb=mb, gain=max_dq, labels=ci, knm_o=knm_o, knm_i=knm_i, km_o=km_o, km_i=km_i)
 
     _, ci = np.unique(ci, return_inverse=True)
     ci += 1
@@ -774,6 +778,7 @@ def modularity_finetune_und(W, ci=None, gamma=1, seed=None):
 
                 ci[u] = mb + 1
                 flag = True
+                if _verif.ON: _verif.emit('move', fn='modularity_finetune_und', u=u, ma=ma, mb=mb, gain=max_dq, labels=ci, knm=knm, km=km)
 
     _, ci = np.unique(ci, return_inverse=True)
     ci += 1
@@ -916,6 +921,7 @@ def modularity_finetune_und_sign(W, qtype='sta', gamma=1, ci=None, seed=None):
                 Km0[ma] -= Kn0[u]
                 Km1[mb] += Kn1[u]
                 Km1[ma] -= Kn1[u]
+                if _verif.ON: _verif.emit('move', fn='modularity_finetune_und_sign', u=u, ma=ma, mb=mb, gain=max_dq, labels=ci, knm0=Knm0, knm1=Knm1, km0=Km0, km1=Km1)
 
     _, ci = np.unique(ci, return_inverse=True)
     ci += 1
@@ -1028,6 +1034,7 @@ def modularity_louvain_dir(W, gamma=1, hierarchy=False, seed=None):
 
                     m[u] = mb + 1  # reassign module
                     flag = True
+                    if _verif.ON: _verif.emit('move', fn='modularity_louvain_dir', u=u, ma=ma, mb=mb, gain=max_dq, labels=m, knm_o=knm_o, knm_i=knm_i, km_o=km_o, km_i=km_i, W=W, h=h)
 
         _, m = np.unique(m, return_inverse=True)
         m += 1
@@ -1048,6 +1055,7 @@ def modularity_louvain_dir(W, gamma=1, hierarchy=False, seed=None):
         q.append(0)
         # compute modularity
         q[h] = np.trace(W1) / s - gamma * np.sum(np.dot(W1 / s, W1 / s))
+        if _verif.ON: _verif.emit('level', fn='modularity_louvain_dir', labels=ci[h], q=q[h], h=h)
         if q[h] - q[h - 1] < 1e-10:  # if modularity does not increase
             break
 
@@ -1157,6 +1165,7 @@ def modularity_louvain_und(W, gamma=1, hierarchy=False, seed=None):
 
                     m[i] = j + 1  # reassign module
                     flag = True
+                    if _verif.ON: _verif.emit('move', fn='modularity_louvain_und', u=i, ma=ma, mb=j, gain=max_dq, labels=m, knm=Knm, km=Km, W=W, h=h)
 
         _, m = np.unique(m, return_inverse=True)  # new module assignments
         # print m,h
@@ -1182,6 +1191,7 @@ def modularity_louvain_und(W, gamma=1, hierarchy=False, seed=None):
         q.append(0)
         # compute modularity
         q[h] = np.trace(W) / s - gamma * np.sum(np.dot(W / s, W / s))
+        if _verif.ON: _verif.emit('level', fn='modularity_louvain_und', labels=ci[h], q=q[h], h=h)
         if q[h] - q[h - 1] < 1e-10:  # if modularity does not increase
             break
 
@@ -1326,6 +1336,7 @@ def modularity_louvain_und_sign(W, gamma=1, qtype='sta', seed=None):
                     km1[ma] -= kn1[u]
 
                     m[u] = mb + 1  # reassign module
+                    if _verif.ON: _verif.emit('move', fn='modularity_louvain_und_sign', u=u, ma=ma, mb=mb, gain=max_dQ, labels=m, knm0=knm0, knm1=knm1, km0=km0, km1=km1, W0=W0, W1=W1, h=h)
 
         h += 1
         ci.append(np.zeros((n,)))
@@ -1354,6 +1365,7 @@ def modularity_louvain_und_sign(W, gamma=1, qtype='sta', seed=None):
         q0 = np.trace(W0) - gamma * np.sum(np.dot(W0, W0)) / s0
         q1 = np.trace(W1) - gamma * np.sum(np.dot(W1, W1)) / s1
         q[h] = d0 * q0 - d1 * q1
+        if _verif.ON: _verif.emit('level', fn='modularity_louvain_und_sign', labels=ci[h], q=q[h], h=h)
 
     _, ci_ret = np.unique(ci[-1], return_inverse=True)
     ci_ret += 1
@@ -1487,6 +1499,7 @@ def modularity_probtune_und_sign(W, qtype='sta', gamma=1, ci=None, p=.45,
             Km0[ma] -= Kn0[u]
             Km1[mb] += Kn1[u]
             Km1[ma] -= Kn1[u]
+            if _verif.ON: _verif.emit('move', fn='modularity_probtune_und_sign', u=u, ma=ma, mb=mb, random=bool(r), labels=ci, knm0=Knm0, knm1=Knm1, km0=Km0, km1=Km1)
 
     _, ci = np.unique(ci, return_inverse=True)
     ci += 1
